@@ -375,6 +375,11 @@ func (env *Env) field(base Val, sel string) Val {
 		f := st.Field(i)
 		if f.Name() == sel {
 			comp, sort, _ := vc.fieldCompOf(t, i)
+			if isStructLike(f.Type()) {
+				// nested struct stored in place: the same sub-object ref the translation of the code uses
+				fn := vc.subFun(comp)
+				return Val{T: sx(fn, base.T), S: "Int", Ty: f.Type()}
+			}
 			arr := vc.heapGet(env.st, comp, sort)
 			return Val{T: rangeCoerce(sx("select", arr, base.T), f.Type()), S: vc.sortOf(f.Type()), Ty: f.Type()}
 		}
